@@ -243,3 +243,20 @@ func verifReach(v reflect.Value, seen map[uintptr]bool, depth int) {
 		}
 	}
 }
+
+// envKeyOf / envValOf split "K=v" at the first '=' (no fork under symgo; callers check containsEq).
+func envKeyOf(s string) string {
+	if i := strings.Index(s, "="); i >= 0 {
+		return s[:i]
+	}
+	return s
+}
+func envValOf(s string) string {
+	if i := strings.Index(s, "="); i >= 0 {
+		return s[i+1:]
+	}
+	return ""
+}
+
+// hasPrefixStr is strings.HasPrefix (term-level under symgo).
+func hasPrefixStr(s, prefix string) bool { return strings.HasPrefix(s, prefix) }
